@@ -70,7 +70,7 @@ def build_cases(tier, backend):
         add("float", "compare", t, per.format(f"j.pt() > {t}"), ("value", 2.5 > v))
         add("float", "column", t, per.format(t), ("bits", v))
     # the same numbers as ONE constant node (a captured python variable): negative values are not a unary minus then
-    for t in [repr(v) for v in INTS if abs(v) < 2 ** 31] + ["-2.5", "-0.5", "0.5", "-1e-07", "-123456789.125", "-1e+22", "-0.0", "0.0"]:
+    for t in [repr(v) for v in INTS if abs(v) <= 2 ** 31] + ["-2.5", "-0.5", "0.5", "-1e-07", "-123456789.125", "-1e+22", "-0.0", "0.0"]:
         v = ast.literal_eval(t)
         kc = f"vm_const({t})"
         add("captured", "arith-right-minus", t, per.format(f"j.pt() - {kc}"), ("value", 2.5 - v))
